@@ -17,10 +17,10 @@ META = dict(
               "a solver-chosen renumbering of the template; forward on the reactants and invert=True on the products; "
               "strategy all, and comp/bt where the component-aware semantics admit the identity placement; plus concrete families "
               "with a symmetric centre and symbolic substituents: [2+2] cycloaddition (4-atom centre), allylic shift (3 atoms) "
-              "[thorough: Diels-Alder, 6 atoms]",
+              "[thorough: Diels-Alder, 6 atoms]; explicit-hydrogen branch of the precondition: keto-enol shift and esterification (with a non-migrating explicit hydrogen), centre and full-ITS template, forward [thorough: MPV]",
         thorough="n=3 with charges, n=4 (hcount 0..1, charge 0, orders 0..1) for the centre template",
     ),
-    outside=["SMILES rewriting of the reaction, Standardize comparison (RDKit)", "explicit-hydrogen templates",
+    outside=["SMILES rewriting of the reaction, Standardize comparison (RDKit)", "explicit-hydrogen templates beyond the three listed families",
              "reactions whose centre is empty"],
     stubs=["NoCanon canonicaliser passed through the public canonicaliser= parameter"],
     assumptions=["balanced reaction: same atoms and elements on both sides, equal hydrogen and charge totals",
@@ -131,7 +131,67 @@ def h_family(E, family, direction):
     E.observe(len(res))
 
 
-HARNESSES = {"own": h_own, "family": h_family}
+def h_family_xh(E, family, kind):
+    """the precondition's other branch: all centre hydrogens are written explicitly.  Concrete reactions (keto-enol shift,
+    MPV transfer hydrogenation, esterification with an additional non-migrating explicit hydrogen) with symbolic
+    substituents; template = centre or full ITS; default reactor flags (explicit_h=True); the reaction must be among the
+    results of the forward application to the implicit-hydrogen reactants."""
+    import networkx as nx
+
+    from synkit.Graph.ITS.its_construction import ITSConstruction
+    from synkit.Graph.ITS.its_decompose import get_rc, its_decompose
+    from synkit.Graph.Hyrogen._misc import h_to_implicit
+    from synkit.Synthesis.Reactor.syn_reactor import SynReactor
+    from harness.c03 import XH_FAMILIES
+    from harness.reactor_common import NoCanon
+
+    fam = XH_FAMILIES[family]
+    heavy = sorted(fam["heavy"])
+    subs = sorted({v for b in fam["sub_bonds"] for v in b[:2]} - set(heavy))
+    lab = {}
+    for v in heavy:
+        lab[v] = (fam["heavy"][v], fam["sub_h"][v] - sum(1 for (a, b, o) in fam["G"] if v in (a, b) and (a in fam["hyd"] or b in fam["hyd"])))
+    for v in subs:
+        lab[v] = (E.choice("sel%d" % v, ["C", "O"]), E.int("sh%d" % v, 0, 1))
+    # the reaction with its hydrogens written as in the family: explicit H nodes + remaining implicit counts
+    G, H = nx.Graph(), nx.Graph()
+    for g, bonds in ((G, fam["G"]), (H, fam["H"])):
+        for v in heavy + subs:
+            g.add_node(v, element=lab[v][0], aromatic=False, hcount=lab[v][1], charge=0, atom_map=v)
+        for v in fam["hyd"]:
+            g.add_node(v, element="H", aromatic=False, hcount=0, charge=0, atom_map=v)
+        for a, b, o in bonds:
+            g.add_edge(a, b, order=o)
+        for a, b, o in fam["sub_bonds"]:
+            if a in subs or b in subs:
+                g.add_edge(a, b, order=o)
+    its = ITSConstruction.ITSGraph(G, H)
+    tmpl = get_rc(its) if kind == "rc" else its
+    if kind == "rc" and any(v in fam["hyd"] and v not in tmpl for v in fam["hyd"]):
+        pass  # a non-migrating explicit hydrogen is simply not part of the centre
+    sub = h_to_implicit(G)
+    for v in sub.nodes:
+        sub.nodes[v]["atom_map"] = 0
+        sub.nodes[v]["neighbors"] = []
+    res = SynReactor(substrate=sub, template=tmpl, canonicaliser=NoCanon(), strategy="all").its_list
+    # expected: the reaction with migrating hydrogens explicit and every other hydrogen implicit
+    moving = [v for v in fam["hyd"] if {frozenset(e[:2]) for e in fam["G"] if v in e[:2]} != {frozenset(e[:2]) for e in fam["H"] if v in e[:2]}]
+    def fold(g):
+        g2 = g.copy()
+        for v in fam["hyd"]:
+            if v not in moving:
+                for w in list(g2.neighbors(v)):
+                    g2.nodes[w]["hcount"] = g2.nodes[w]["hcount"] + 1
+                g2.remove_node(v)
+        return g2
+    want = ITSConstruction.ITSGraph(fold(G), fold(H))
+    info = dict(family=family, kind=kind, n_results=len(res))
+    E.check(NOT(OR([its_iso(r, want) for r in res])), "own-template-regenerates-the-reaction", info)
+    E.note(nontrivial=len(res) > 0)
+    E.observe(len(res))
+
+
+HARNESSES = {"own": h_own, "family": h_family, "family_xh": h_family_xh}
 
 
 def shards(tier, seed):
@@ -143,6 +203,9 @@ def shards(tier, seed):
     for fam in ("2+2", "ene-shift") + (("DA",) if tier == "thorough" else ()):
         for direction in ("fwd", "bwd"):
             sh.append(dict(h="family", params=dict(family=fam, direction=direction)))
+    for fam in ("enol", "ester") + (("MPV",) if tier == "thorough" else ()):
+        for kind in ("rc", "its"):
+            sh.append(dict(h="family_xh", params=dict(family=fam, kind=kind)))
     if tier == "thorough":
         for kind in ("rc", "its"):
             for direction in ("fwd", "bwd"):
